@@ -33,14 +33,25 @@ RULE = (
     "mode of size 21..32 (above ARPACK's default subspace), starts made of unit vectors / with exact zeros and a zero row; "
     "(5) data magnitude 1e-6..1e6, verbosity any float in {-7.5..1000}, stoptol 0 or log-uniform 1e-12..1, printitn in "
     "{-5,-1,0,1,2,3,7,1000}.  tucker_als requests that turn out degenerate along the sweeps (NumPy replay: lambda_r/lambda_1 < "
-    "1e-12 for a requested column) are judged by the per-run clauses only."
+    "1e-12 for a requested column) are judged by the per-run clauses only.  Round 3 classes: (6) data magnitude also 1e-9, 1e-10, "
+    "1e-12, 1e+9; data of exactly low multilinear rank plus relative noise 1e-10..1e-5 (hosvd), noise 1e-8 / 1e-6 (tucker_als); "
+    "starts with unit-length non-orthogonal columns, orthonormal or identity up to 1e-10..1e-5, of magnitude 1e-12 / 1e+9; "
+    "(7) one case in 30..40 is a larger problem (5..6 modes, or a mode of 40..60 with up to 2e4 cells); (8) spectra spread over "
+    "8 / 10 / 12 / 13 decades, strong directions followed by a cluster 1e-10 below, low rank + noise at 1e-7 / 1e-5, with tol "
+    "log-uniform in 1e-6..1e-2 (and the switch values of those spectra); (9) cells live-objects: the data object is edited by item "
+    "assignment between calls (hosvd x3, tucker_als x2), then the caller's start matrices are edited in place; every call is "
+    "judged against the current state, earlier results and returned starts must stay bit-identical, writing into results must "
+    "reach neither data nor starts; (10) tol up to 1 - 1e-12, tucker_als with maxiters 1, stoptol 2.5 / 1e300, printitn > maxiters."
 )
 ASSUMPTIONS = [
     "bulk numeric content expanded by np.random.default_rng from Hypothesis-drawn integer seeds; spectra, tol class, "
     "options drawn directly",
     "orthonormal columns: max |U'U - I| <= 1e-10",
     "core relation: ||core - X x_n U_n'||^2 <= 1e-20 ||X||^2 (einsum reference)",
-    "error bound (automatic ranks): ||X - T||^2 <= tol^2 ||X||^2 (1 + 1e-9) + 1e-26 ||X||^2 (rounding floor of the reconstruction)",
+    "error bound (automatic ranks): ||X - T||^2 <= tol^2 ||X||^2 (1 + 1e-9) + 64 eps sum_k(n_k) ||X||^2: the method sees the data "
+    "only through the d Gram matrices, whose entries and eigenvalues carry rounding errors of a modest multiple of eps ||X||^2, so "
+    "a discarded tail is known only to that accuracy (1e-13..1e-12 ||X||^2; matters for tol <= 1e-5 only).  The printed "
+    "'Tolerance not satisfied' warning is demanded absent only when the recomputed error is within tol (it is truthful otherwise)",
     "tucker_als fit: |((1-fit)||X||)^2 - ||X-T||^2| <= 1e-10 ||X||^2; normresidual likewise; fit = 1 - normresidual/||X|| to 1e-12",
     "tucker_als monotone: ||X-T_{k+1}||^2 <= ||X-T_k||^2 + 1e-9 ||X||^2 over runs truncated at k sweeps from the same start "
     "(1e-7 when some r_n < n_n - 1: nvecs then uses ARPACK, whose start vector comes from an unseedable process-wide stream, so "
@@ -83,6 +94,14 @@ SPECTRA = {
     "tied-pairs": lambda m: [4.0 ** (-(i // 2)) for i in range(m)],
     "all-equal": lambda m: [1.0 for _ in range(m)],
     "tied-tail": lambda m: [1.0 if i == 0 else 0.0625 for i in range(m)],
+    # class 8: eigenvalues spread evenly (in the exponent) over 8 / 10 / 12 / 13 decades -- singular values down to 3e-7 of the
+    # largest, still resolved by a Gram-matrix method (eps = 2e-16 relative to the largest eigenvalue)
+    "wide-8": lambda m: [10.0 ** (-8.0 * i / max(1, m - 1)) for i in range(m)],
+    "wide-10": lambda m: [10.0 ** (-10.0 * i / max(1, m - 1)) for i in range(m)],
+    "wide-12": lambda m: [10.0 ** (-12.0 * i / max(1, m - 1)) for i in range(m)],
+    "wide-13": lambda m: [10.0 ** (-13.0 * i / max(1, m - 1)) for i in range(m)],
+    # a few strong directions, then a cluster of weak ones far below (the weak ones matter for tol <= 1e-5)
+    "strong-then-weak": lambda m: [10.0 ** (-2 * i) if i < (m + 1) // 2 else max(1.0, 9.0 - i) * 1e-10 for i in range(m)],
 }
 
 # integer data, holders in a given dtype / provenance: shared with C09 and C18 (see _c09_helpers)
@@ -110,7 +129,7 @@ def hosvd_data(case) -> np.ndarray:
             d = np.array([rates[k] ** i for i in range(n)])
             G = G * d.reshape([-1 if j == k else 1 for j in range(len(shape))])
         Q = [_orth(rng, n, n) for n in shape]
-        return ref.den_tucker(G, Q) * float(case.get("scale", 1.0))
+        return H.tucker_fast(G, Q) * float(case.get("scale", 1.0))
     if kind == "lowrank-noise":
         return H.dense_problem(shape, int(case.get("rtrue", 2)), int(case["data_seed"]), float(case.get("noise", 0.1))) \
             * float(case.get("scale", 1.0))
@@ -127,7 +146,14 @@ def hosvd_data(case) -> np.ndarray:
         ml = [max(1, min(int(r), n)) for r, n in zip(case["mlrank"], shape)]
         G = rng.standard_normal(tuple(ml))
         Q = [_orth(rng, n, r) for n, r in zip(shape, ml)]
-        return ref.den_tucker(G, Q) * float(case.get("scale", 1.0))
+        return H.tucker_fast(G, Q) * float(case.get("scale", 1.0))
+    if kind == "near-lowrank":  # class 6: exactly low multilinear rank plus relative noise 1e-10 .. 1e-5 (almost special)
+        ml = [max(1, min(int(r), n)) for r, n in zip(case["mlrank"], shape)]
+        G = rng.standard_normal(tuple(ml))
+        Q = [_orth(rng, n, r) for n, r in zip(shape, ml)]
+        A = H.tucker_fast(G, Q)
+        E = rng.standard_normal(tuple(shape))
+        return (A + float(case["noise"]) * np.sqrt(H.sq(A) / A.size) * E) * float(case.get("scale", 1.0))
     if kind == "block":  # two diagonal blocks, exact zeros elsewhere
         A = np.zeros(tuple(shape))
         cut = [max(1, n // 2) for n in shape]
@@ -177,7 +203,7 @@ def resolve_tol(case, A):
 
 @st.composite
 def _tol(draw):
-    kind = draw(st.sampled_from(["switch", "switch", "switch", "random", "tiny", "near1"]))
+    kind = draw(st.sampled_from(["switch", "switch", "switch", "random", "tiny", "near1", "small", "small"]))
     if kind == "switch":
         return dict(kind="switch", mode=draw(st.integers(0, 3)), index=draw(st.integers(0, 5)),
                     side=draw(st.sampled_from(["below", "above", "at"])),
@@ -186,7 +212,10 @@ def _tol(draw):
         return dict(kind="value", tag="random", value=draw(st.floats(0.01, 0.99, allow_nan=False)))
     if kind == "tiny":
         return dict(kind="value", tag="tiny", value=draw(st.sampled_from([1e-8, 1e-6, 1e-3])))
-    return dict(kind="value", tag="near1", value=draw(st.sampled_from([0.9, 0.99, 0.999])))
+    if kind == "small":  # log-uniform over 1e-6 .. 1e-2 (class 8: below / inside / above the weak part of a wide spectrum)
+        return dict(kind="value", tag="small", value=float(10.0 ** (-draw(st.integers(8, 24)) / 4.0)))
+    # up to the end of the admissible interval (class 10: everything but one direction per mode may be discarded)
+    return dict(kind="value", tag="near1", value=draw(st.sampled_from([0.9, 0.99, 0.999, 0.999999, 1.0 - 1e-12])))
 
 
 SCALES = H.SCALES  # every bound below is relative to ||X||^2, so the relations are scale-free
@@ -194,11 +223,20 @@ DTYPES = ["float64"] * 9 + ["int64", "int32", "int16", "uint8", "uint16", "int8"
 
 
 @st.composite
-def _shape(draw, tier, N, lo1=7, cap=None):
+def _shape(draw, tier, N, lo1=7, cap=None, big_one_in=30):
     """mode sizes; one case in eight has a mode above 20 (eigensolvers switch regime there: ARPACK's default subspace is
     20 vectors) and the other modes small"""
     hi = 5 if tier == "quick" else 6
     cap = cap or (200 if tier == "quick" else 600)
+    if N >= 3 and draw(st.integers(0, big_one_in - 1)) == 0:
+        # class 7: a few larger problems per run -- 5..6 modes, or one mode of 40..60 with room in the others (up to ~2e4 cells)
+        if draw(st.integers(0, 10**6)) % 2 == 0:
+            return [draw(st.integers(2, 4)) for _ in range(draw(st.sampled_from([5, 6])))]
+        shape = [draw(st.integers(2, 8)) for _ in range(N)]
+        shape[draw(st.integers(0, N - 1))] = draw(st.integers(40, 60))
+        while ref.prod(shape) > 20000:
+            shape[max((i for i in range(N) if shape[i] <= 20), key=lambda i: shape[i])] -= 1
+        return shape
     shape = [draw(st.integers(1 if draw(st.integers(0, lo1)) == 0 else 2, hi)) for _ in range(N)]
     if draw(st.integers(0, 7)) == 0:
         k = draw(st.integers(0, N - 1))
@@ -218,25 +256,29 @@ def _shape(draw, tier, N, lo1=7, cap=None):
 def _hosvd_case(draw, tier):
     N = draw(st.sampled_from([1, 2, 3, 3, 3, 4] if tier == "quick" else [1, 2, 3, 3, 4, 4, 5]))
     shape = draw(_shape(tier, N))
+    N = len(shape)
     dtype = draw(st.sampled_from(DTYPES))
     if dtype in INT_RANGE:
         kind = draw(st.sampled_from(["integers", "int-lowrank", "int-lowrank"]))
     else:
-        kind = draw(st.sampled_from(["superdiag", "superdiag", "tucker-decay", "tucker-decay", "tucker-decay", "lowrank-noise",
-                                     "lowrank-noise", "integers", "exact-lowrank", "block", "constant"]))
+        kind = draw(st.sampled_from(["superdiag", "superdiag", "superdiag", "tucker-decay", "tucker-decay", "tucker-decay",
+                                     "lowrank-noise", "lowrank-noise", "integers", "exact-lowrank", "near-lowrank", "near-lowrank",
+                                     "block", "constant"]))
     c = dict(shape=shape, kind=kind, data_seed=draw(st.integers(0, 10**6)), dtype=dtype)
     if dtype in INT_RANGE:
         c["mag"] = draw(st.sampled_from(["small", "medium", "full"]))
         c["rtrue"] = draw(st.integers(1, 3))
     if kind == "superdiag":
         c["spectrum"] = draw(st.sampled_from(sorted(SPECTRA)))
-    if kind in ("superdiag", "tucker-decay", "lowrank-noise", "exact-lowrank", "block", "constant"):
+    if kind in ("superdiag", "tucker-decay", "lowrank-noise", "exact-lowrank", "near-lowrank", "block", "constant"):
         c["scale"] = draw(st.sampled_from(SCALES))
     if kind == "lowrank-noise":
         c["rtrue"] = draw(st.integers(1, 3))
-        c["noise"] = draw(st.sampled_from([1e-3, 0.1, 1.0]))
-    if kind == "exact-lowrank":
+        c["noise"] = draw(st.sampled_from([1e-7, 1e-5, 1e-3, 0.1, 1.0]))
+    if kind in ("exact-lowrank", "near-lowrank"):
         c["mlrank"] = [draw(st.integers(1, n)) for n in shape]
+    if kind == "near-lowrank":
+        c["noise"] = draw(st.sampled_from([1e-10, 1e-8, 1e-7, 1e-6, 1e-5]))
     c["prov"] = draw(st.sampled_from(PROVS_F64 if dtype == "float64" else PROVS_ANY))
     c["tol"] = draw(_tol())
     c["sequential"] = draw(st.booleans())
@@ -283,10 +325,10 @@ def _structure(ctx, T, A, tag, f32=False):
                 (G.shape, ranks))
     worst = max(float(np.max(np.abs(u.T @ u - np.eye(u.shape[1])))) for u in fm)
     ctx.check(worst <= (1e-5 if f32 else 1e-10), f"{tag}factors-orthonormal", worst)
-    Gref = ref.den_tucker(A, [u.T for u in fm])
+    Gref = H.tucker_fast(A, [u.T for u in fm])
     ctx.check(H.sq(G - Gref) <= (1e-9 if f32 else 1e-20) * H.sq(A), f"{tag}core-is-data-times-transposed-factors",
               f"||core - ref||^2 = {H.sq(G - Gref)!r}, ||X||^2 = {H.sq(A)!r}")
-    return ref.den_tucker(G, fm), ranks
+    return H.tucker_fast(G, fm), ranks
 
 
 _REL = re.compile(r"\|\|X-T\|\|/\|\|X\|\| =\s*(\S+)\s*(<=|>=)\s*(\S+) \(tol\)")
@@ -308,7 +350,13 @@ def _hosvd_body(ctx, case):
         tol = max(tol, 1e-2)
     X, prov = hold(A, dtype, case.get("prov", "ctor"), int(case["data_seed"]))
     ctx.label("dtype-" + dtype, "prov-" + prov, "scale-%g" % float(case.get("scale", 1.0)),
-              "long-mode" if max(shape) > 20 else "short-modes")
+              "long-mode" if max(shape) > 20 else "short-modes",
+              "problem-large" if ref.prod(shape) > 700 or N >= 5 else "problem-small",
+              "tol<1e-5" if tol < 1e-5 else ("tol<1e-3" if tol < 1e-3 else "tol>=1e-3"))
+    if case["kind"] == "superdiag":
+        ctx.label("spectrum-" + case["spectrum"])
+    if case["kind"] in ("lowrank-noise", "near-lowrank"):
+        ctx.label("noise-%g" % float(case.get("noise", 0.1)))
     if dtype in INT_RANGE:
         ctx.label("mag-" + case.get("mag", "small"))
     snap = H.snapshot(X)
@@ -332,7 +380,10 @@ def _hosvd_body(ctx, case):
     ctx.nt = any(r < n for r, n in zip(ranks, shape)) and err2 > 1e-6 * n2
     ctx.label("truncated" if any(r < n for r, n in zip(ranks, shape)) else "full-ranks")
     if ranks_in is None:
-        slack = (1e-4, 1e-9) if f32 else (1e-9, 1e-26)
+        # the method works on the d Gram matrices: their entries and eigenvalues carry rounding errors of a modest multiple of
+        # eps ||X||^2, so a discarded tail is only known to that accuracy -> 64 eps sum(n_k) ||X||^2 (1e-13 .. 1e-12 ||X||^2; it
+        # matters only for tol <= 1e-5)
+        slack = (1e-4, 1e-9) if f32 else (1e-9, 64 * ref.EPS * sum(shape))
         ctx.check(err2 <= tol * tol * n2 * (1 + slack[0]) + slack[1] * n2, "relative-error-within-tol",
                   f"||X-T||^2/||X||^2 = {err2 / n2!r} > tol^2 = {tol * tol!r} (ranks {ranks} of {shape})")
     else:
@@ -349,8 +400,12 @@ def _hosvd_body(ctx, case):
             true_rel = float(np.sqrt(err2 / n2))
             if true_rel > 1e-9:
                 ctx.check(abs(rel - true_rel) <= 1e-5 * true_rel, "printed-relative-error", (rel, true_rel))
-            if ranks_in is None:
+            if ranks_in is None and err2 <= tol * tol * n2 * (1 - 1e-9):
+                # the report must be truthful: no warning when the recomputed error is within tol.  (An error above tol by
+                # no more than the rounding slack of the Gram matrices passes the bound clause above; the warning is then right.)
                 ctx.check("not satisfied" not in text and m.group(2) == "<=", "no-tolerance-warning", text[-160:])
+            elif ranks_in is None:
+                ctx.label("error-above-tol-within-rounding-slack" if err2 > tol * tol * n2 * (1 + 1e-9) else "error-at-tol")
     else:
         ctx.check(text.strip() == "", "silent-when-verbosity-not-positive", text[:80])
 
@@ -419,7 +474,7 @@ def tucker_data(case) -> np.ndarray:
     ml = [int(r) for r in case["mlrank"]]
     G = rng.standard_normal(tuple(ml))
     Q = [_orth(rng, n, r) for n, r in zip(shape, ml)]
-    A = ref.den_tucker(G, Q)
+    A = H.tucker_fast(G, Q)
     E = rng.standard_normal(tuple(shape))
     return (A + float(case["noise"]) * np.sqrt(H.sq(A) / A.size) * E) * sc
 
@@ -430,11 +485,14 @@ STOPTOLS, PRINTITNS = H.STOPTOLS, H.PRINTITNS
 @st.composite
 def _tucker_case(draw, tier):
     N = draw(st.sampled_from([2, 3, 3, 3, 4] if tier == "quick" else [2, 3, 3, 4, 4]))
-    shape = draw(_shape(tier, N, cap=200 if tier == "quick" else 500))
+    shape = draw(_shape(tier, N, cap=200 if tier == "quick" else 500, big_one_in=40))
+    big = len(shape) >= 5 or ref.prod(shape) > 700
+    N = len(shape)
     dtype = draw(st.sampled_from(["float64"] * 10 + ["int64", "int32", "int16", "uint8", "uint16", "int8"]))
     kind = "int-noise" if dtype in INT_RANGE else draw(st.sampled_from(["tucker-noise", "tucker-noise", "cp-noise"]))
+    # noise 1e-8 / 1e-6: data that are almost exactly of low multilinear rank (class 6)
     c = dict(shape=shape, kind=kind, data_seed=draw(st.integers(0, 10**6)),
-             noise=draw(st.sampled_from([0.0, 1e-3, 0.1, 1.0])), dtype=dtype)
+             noise=draw(st.sampled_from([0.0, 1e-8, 1e-6, 1e-3, 0.1, 1.0])), dtype=dtype)
     if dtype in INT_RANGE:
         c["mag"] = draw(st.sampled_from(["small", "medium", "full"]))
         c["rtrue"] = draw(st.integers(1, 3))
@@ -448,9 +506,9 @@ def _tucker_case(draw, tier):
             c["noise"] = 1e-3
     else:
         c["mlrank"] = [draw(st.integers(1, n)) for n in shape]
-    rank = [draw(st.integers(1, n)) for n in shape]
+    rank = [draw(st.integers(1, min(n, 8))) for n in shape]
     if draw(st.integers(0, 5)) == 0:
-        r = draw(st.integers(1, min(shape)))
+        r = draw(st.integers(1, min(min(shape), 8)))
         rank = [r] * N
         c["rank_form"] = "scalar"
     else:
@@ -463,12 +521,13 @@ def _tucker_case(draw, tier):
             for n in range(N):
                 rank[n] = min(rank[n], ref.prod(rank) // rank[n])
     c["rank"] = rank
-    c["init"] = draw(st.sampled_from(["random", "nvecs", "list", "list-orth", "list-eye", "list-zeros", "list-int"]))
+    c["init"] = draw(st.sampled_from(["random", "nvecs", "list", "list-orth", "list-eye", "list-zeros", "list-int", "list-unit",
+                                      "list-near-orth", "list-near-eye", "list-tiny", "list-huge"]))
     c["init_seed"] = draw(st.integers(0, 10**6))
     c["np_seed"] = draw(st.integers(0, 2**31 - 1))
     c["dimorder"] = draw(st.one_of(st.none(), st.permutations(range(N)).map(list), st.permutations(range(N)).map(list)))
     c["form"] = draw(st.sampled_from(["list", "array", "tuple"]))
-    c["maxiters"] = draw(st.integers(1, 5 if tier == "quick" else 7))
+    c["maxiters"] = draw(st.integers(1, 5 if tier == "quick" else 7)) if not big else draw(st.integers(1, 3))
     c["stoptol"] = draw(STOPTOLS)
     c["printitn"] = draw(PRINTITNS)
     return c
@@ -485,6 +544,16 @@ def _tucker_init(case):
         M = rng.standard_normal((n, r))
         if kind == "list-orth":
             M, _ = np.linalg.qr(M)
+        elif kind == "list-unit":  # unit-length columns that are not orthogonal
+            M = M / np.sqrt(np.sum(M * M, axis=0))[None, :]
+        elif kind == "list-near-orth":  # orthonormal up to a relative perturbation 1e-10 .. 1e-5
+            M = np.linalg.qr(M)[0] + float(H.NEAR_EPS[int(rng.integers(0, len(H.NEAR_EPS)))]) * rng.standard_normal((n, r))
+        elif kind == "list-near-eye":  # leading columns of the identity up to 1e-10 .. 1e-5
+            M = np.eye(n)[:, :r] + float(H.NEAR_EPS[int(rng.integers(0, len(H.NEAR_EPS)))]) * M
+        elif kind == "list-tiny":  # start of overall magnitude 1e-12 (the method is invariant under scaling of the start)
+            M = M * 1e-12
+        elif kind == "list-huge":
+            M = M * 1e9
         elif kind == "list-eye":  # structured start: r distinct unit vectors (exactly orthogonal, disjoint supports)
             M = np.eye(n)[:, rng.permutation(n)[:r]]
         elif kind == "list-zeros":  # generic start with exact zeros: entries, and one whole row when there is room
@@ -576,7 +645,8 @@ def tucker_als_generated(ctx, case):
     maxiters, stoptol, printitn = int(case["maxiters"]), float(case["stoptol"]), int(case["printitn"])
     ctx.label("dtype-" + case.get("dtype", "float64"), "prov-" + prov, "scale-%g" % float(case.get("scale", 1.0)),
               "long-mode" if max(shape) > 20 else "short-modes",
-              "stoptol-0" if stoptol == 0 else ("stoptol<1e-6" if stoptol < 1e-6 else "stoptol>=1e-6"),
+              "problem-large" if ref.prod(shape) > 700 or N >= 5 else "problem-small", "maxiters-1" if maxiters == 1 else "maxiters>1",
+              "stoptol-0" if stoptol == 0 else ("stoptol<1e-6" if stoptol < 1e-6 else ("stoptol>=1e-6" if stoptol < 1 else "stoptol>=1")),
               "printitn-neg" if printitn < 0 else ("printitn-0" if printitn == 0 else
                                                    ("printitn>maxiters" if printitn > maxiters else "printitn-small")))
     dimorder = case["dimorder"] if case["dimorder"] is not None else list(range(N))
@@ -675,3 +745,191 @@ def tucker_als_generated(ctx, case):
         ctx.check(iters == maxiters - 1, "stoptol0-runs-all-iterations", (iters, maxiters))
     ctx.check(H.snapshot(X) == snapX, "data-unchanged")
     ctx.check(H.snapshot(init) == snapI, "guess-unchanged")
+
+
+# --------------------------------------------------------------------------
+# class 9: the same data / start objects kept alive across calls and edited between calls
+# --------------------------------------------------------------------------
+
+
+def _edit_tensor(X, rng, n_edits):
+    """item assignment on a dense tensor: 1..3 entries get another value of the same kind (integer for integer holders)"""
+    data = np.asarray(X.data)
+    rms = float(np.sqrt(np.mean(data.astype(float) ** 2))) or 1.0
+    for _ in range(n_edits):
+        idx = tuple(int(rng.integers(0, n)) for n in X.shape)
+        if data.dtype.kind in "iu":
+            lo, hi = int(data.min()), int(data.max())
+            new = int(rng.integers(lo, hi + 1))
+            X[idx] = new if new != int(data[idx]) else (lo if new != lo else hi)
+        else:
+            X[idx] = float(data[idx]) + float(rng.choice([-1.0, 1.0])) * rms * float(rng.uniform(0.5, 2.0))
+
+
+def _hosvd_judge(ctx, T, A, tol, case, tag):
+    D, ranks = _structure(ctx, T, A, tag, case.get("dtype") == "float32")
+    n2 = H.sq(A)
+    if case["ranks"] is None:
+        ctx.check(H.sq(A - D) <= tol * tol * n2 * (1 + 1e-9) + 64 * ref.EPS * sum(A.shape) * n2, tag + "relative-error-within-tol",
+                  f"||X-T||^2/||X||^2 = {H.sq(A - D) / n2!r} > tol^2 = {tol * tol!r} (ranks {ranks} of {list(A.shape)})")
+    else:
+        ctx.check(ranks == [int(r) for r in case["ranks"]], tag + "given-ranks-are-returned", (case["ranks"], ranks))
+
+
+def _snap_tt(T):
+    return H.snapshot(T)
+
+
+@st.composite
+def _hosvd_live_case(draw, tier):
+    c = draw(_hosvd_case(tier))
+    if c["dtype"] == "float32":
+        c["dtype"] = "float64"
+    c["verbosity"] = draw(st.sampled_from([0, 0, 1]))
+    c["edit_seed"] = draw(st.integers(0, 10**6))
+    c["n_edits"] = draw(st.integers(1, 3))
+    return c
+
+
+@cell("C10/hosvd/live-objects", strategy=_hosvd_live_case, quick=500, thorough=8000, shards=(4, 16))
+def hosvd_live_objects(ctx, case):
+    """the data object stays alive over three calls and is edited by item assignment between them; every call is judged
+    against the values the object holds at that time; results of earlier calls must stay what they were; writing into a
+    result must not reach the data."""
+    A = hosvd_data(case)
+    if H.sq(A) == 0 or not np.isfinite(H.sq(A)):
+        ctx.skip("zero-data")
+    dtype = case.get("dtype", "float64")
+    X, prov = hold(A, dtype, case.get("prov", "ctor"), int(case["data_seed"]))
+    tol, tlabel = resolve_tol(case, A)
+    kw = dict(verbosity=case["verbosity"], sequential=bool(case["sequential"]))
+    if case["dimorder"] is not None:
+        kw["dimorder"] = _form(case["dimorder"], case["form"])
+    if case["ranks"] is not None:
+        kw["ranks"] = _form(case["ranks"], case["form"])
+    ctx.label("dtype-" + dtype, "prov-" + prov, case["kind"], "sequential" if case["sequential"] else "all-at-once",
+              "ranks-given" if case["ranks"] is not None else "ranks-auto", f"order{A.ndim}")
+    rng = np.random.default_rng([97, int(case["edit_seed"])])
+    results = []
+    cur = A
+    for step in range(3):
+        if step:
+            with ctx.sut("item-assignment-on-the-data"):
+                _edit_tensor(X, rng, int(case["n_edits"]))
+            cur = ref.den(X)
+            if H.sq(cur) == 0 or not np.all(np.isfinite(cur)):
+                ctx.skip("zero-data")
+        snapX = H.snapshot(X)
+        with ctx.sut("hosvd"):
+            with H.captured():
+                T = ttb.hosvd(X, tol, **kw)
+        tag = ["first-", "data-edited-", "data-edited-twice-"][step]
+        _hosvd_judge(ctx, T, cur, tol, case, tag)
+        ctx.check(H.snapshot(X) == snapX, "data-unchanged")
+        for k, (Tp, sp) in enumerate(results):
+            ctx.check(_snap_tt(Tp) == sp, "earlier-results-unchanged-by-editing-the-data-and-calling-again", k)
+        results.append((T, _snap_tt(T)))
+    ctx.nt = any(u.shape[1] < u.shape[0] for u in results[-1][0].factor_matrices)
+    # the caller writes into the last result: neither the data nor the earlier results may change
+    snapX = H.snapshot(X)
+    T = results[-1][0]
+    with ctx.sut("item-assignment-on-the-result"):
+        T.core[tuple(0 for _ in T.core.shape)] = 12345.0
+        for u in T.factor_matrices:
+            u[...] = 7.0
+    ctx.check(H.snapshot(X) == snapX, "editing-the-result-leaves-the-data-alone")
+    for k, (Tp, sp) in enumerate(results[:-1]):
+        ctx.check(_snap_tt(Tp) == sp, "editing-the-result-leaves-earlier-results-alone", k)
+
+
+@st.composite
+def _tucker_live_case(draw, tier):
+    c = draw(_tucker_case(tier))
+    c["init"] = draw(st.sampled_from(["list", "list", "list-orth", "list-zeros", "random", "nvecs"]))
+    c["maxiters"] = draw(st.integers(1, 3))
+    c["stoptol"] = draw(st.sampled_from([0.0, 0.0, 1e-3]))
+    c["printitn"] = draw(st.sampled_from([0, 0, 1]))
+    c["edit_seed"] = draw(st.integers(0, 10**6))
+    c["n_edits"] = draw(st.integers(1, 3))
+    return c
+
+
+def _tucker_judge(ctx, res, A, rank, tag):
+    ctx.require(isinstance(res, tuple) and len(res) == 3, tag + "returns-triple")
+    T, Uinit, out = res
+    D, got = _structure(ctx, T, A, tag)
+    ctx.check(got == rank, tag + "requested-ranks-are-returned", (got, rank))
+    _tucker_reported(ctx, out, A, D, tag)
+    return T, Uinit, out
+
+
+@cell("C10/tucker_als/live-objects", strategy=_tucker_live_case, quick=300, thorough=3000, shards=(4, 16))
+def tucker_live_objects(ctx, case):
+    """data object and the list of start matrices stay alive over the calls; the data are edited by item assignment, then the
+    start matrices are edited in place; every call is judged against the current state; earlier results and returned starts
+    must stay what they were; writing into the results must reach neither the data nor the caller's start matrices."""
+    shape = [int(s) for s in case["shape"]]
+    rank = [int(r) for r in case["rank"]]
+    A = tucker_data(case)
+    if H.sq(A) == 0:
+        ctx.skip("zero-data")
+    X, prov = hold(A, case.get("dtype", "float64"), case.get("prov", "ctor"), int(case["data_seed"]))
+    init = _tucker_init(case)
+    maxiters, stoptol, printitn = int(case["maxiters"]), float(case["stoptol"]), int(case["printitn"])
+    ctx.label("dtype-" + case.get("dtype", "float64"), "prov-" + prov, "init-" + case["init"], f"order{len(shape)}")
+    ctx.nt = any(r < n for r, n in zip(rank, shape))
+    rng = np.random.default_rng([101, int(case["edit_seed"])])
+
+    def snap_res(res):
+        return (H.snapshot(res[0]), H.snapshot(res[1]))
+
+    with ctx.sut("tucker_als-first"):
+        r1, _ = _tucker_run(X, case, init, maxiters, stoptol, printitn)
+    _tucker_judge(ctx, r1, A, rank, "first-")
+    s1 = snap_res(r1)
+    with ctx.sut("item-assignment-on-the-data"):
+        _edit_tensor(X, rng, int(case["n_edits"]))
+    A2 = ref.den(X)
+    if H.sq(A2) == 0 or not np.all(np.isfinite(A2)):
+        ctx.skip("zero-data")
+    snapX, snapI = H.snapshot(X), H.snapshot(init)
+    with ctx.sut("tucker_als-after-editing-the-data"):
+        r2, _ = _tucker_run(X, case, init, maxiters, stoptol, printitn)
+    _tucker_judge(ctx, r2, A2, rank, "data-edited-")
+    ctx.check(H.snapshot(X) == snapX, "data-unchanged")
+    ctx.check(H.snapshot(init) == snapI, "guess-unchanged")
+    ctx.check(snap_res(r1) == s1, "earlier-results-unchanged-by-editing-the-data-and-calling-again")
+    s2 = snap_res(r2)
+    r3 = None
+    if isinstance(init, list):
+        # the caller's start matrices are edited in place (entries, or a whole matrix overwritten)
+        for _ in range(int(case["n_edits"])):
+            k = int(rng.integers(0, len(init)))
+            M = init[k]
+            if rng.uniform() < 0.5:
+                i, j = int(rng.integers(0, M.shape[0])), int(rng.integers(0, M.shape[1]))
+                M[i, j] = M[i, j] + (1 if M.dtype.kind in "iu" else float(rng.uniform(0.5, 2.0)))
+            else:
+                M[...] = rng.integers(-3, 4, M.shape) if M.dtype.kind in "iu" else rng.standard_normal(M.shape)
+                M[np.arange(M.shape[1]) % M.shape[0], np.arange(M.shape[1])] += 5
+        ctx.check((H.snapshot(r1[1]), H.snapshot(r2[1])) == (s1[1], s2[1]), "returned-guesses-unchanged-by-editing-the-callers-guess")
+        snapI = H.snapshot(init)
+        with ctx.sut("tucker_als-after-editing-the-guess"):
+            r3, _ = _tucker_run(X, case, init, maxiters, stoptol, printitn)
+        _, U3, _ = _tucker_judge(ctx, r3, A2, rank, "guess-edited-")
+        same = isinstance(U3, list) and len(U3) == len(init) and all(
+            isinstance(u, np.ndarray) and u.shape == g.shape and np.array_equal(u, g) for u, g in zip(U3, init))
+        ctx.check(same, "returned-guess-is-the-given-one")
+        ctx.check(H.snapshot(init) == snapI, "guess-unchanged")
+    last = r3 if r3 is not None else r2
+    # the caller writes into everything the last call returned
+    with ctx.sut("item-assignment-on-the-result"):
+        last[0].core[tuple(0 for _ in last[0].core.shape)] = 12345.0
+        for u in last[0].factor_matrices:
+            u[...] = 7.0
+        if isinstance(last[1], list):
+            for u in last[1]:
+                if isinstance(u, np.ndarray):
+                    u[...] = 7
+    ctx.check(H.snapshot(X) == snapX and H.snapshot(init) == snapI, "editing-the-results-leaves-data-and-guess-alone")
+    ctx.check(snap_res(r1) == s1 and (r3 is None or snap_res(r2) == s2), "editing-the-results-leaves-earlier-results-alone")
